@@ -348,20 +348,30 @@ def index_interval(view, sub, idx):
             continue
         if pre_dec or sh["cond"] is None or sh["step"] is None or sh["init"] is None:
             raise NotImplementedError("loop over %s is not a counting loop" % nm)
-        I, B = lin_of(view, sh["init"]), lin_of(view, sh["cond"][1])
-        if I is None or B is None:
-            raise NotImplementedError("bounds %s / %s of the loop over %s are not level expressions" % (render(sh["init"]), render(sh["cond"][1]), nm))
+        def bound(x):
+            """(lo, hi) of a loop bound: a level expression, or a search variable with its own range"""
+            v = lin_of(view, x)
+            if v is not None:
+                return v, v
+            xr = view.value(x)
+            if xr.get("k") == "Ref" and xr.get("dk") == "local" and xr.get("d") != d:
+                blo, bhi, _, _ = index_interval(view, l, xr)
+                return blo, bhi
+            raise NotImplementedError("bound %s of the loop over %s is not a level expression" % (render(x), nm))
+        (Ilo, Ihi), (Blo, Bhi) = bound(sh["init"]), bound(sh["cond"][1])
         op, (st, where, w) = sh["cond"][0], sh["step"]
+        txt = "%s = %s; %s %s %s" % (nm, render(sh["init"]), nm, op, render(sh["cond"][1]))
+        txt = re.sub(r"std::size_t|FEAT::Index", "", txt)
         if st == 1 and where == "inc" and op in ("<", "<="):
-            return I, (B.shift(-1) if op == "<" else B), gap, "for(%s = %s; %s %s %s; ++)" % (nm, I, nm, op, B)
+            return Ilo, (Bhi.shift(-1) if op == "<" else Bhi), gap, "for(%s; ++)" % txt
         if st == -1 and where == "inc" and op in (">", ">="):
-            return (B.shift(1) if op == ">" else B), I, gap, "for(%s = %s; %s %s %s; --)" % (nm, I, nm, op, B)
+            return (Blo.shift(1) if op == ">" else Blo), Ihi, gap, "for(%s; --)" % txt
         if st == -1 and where == "body" and op in (">", ">="):
             body = l.get("body") or {}
             first = (body.get("s") or [None])[0]
             if first is None or strip(first).get("i") != w.get("i"):
                 raise NotImplementedError("decrement of %s is not the first statement of its loop body" % nm)
-            return (B if op == ">" else B.shift(-1)), I.shift(-1), gap, "for(%s = %s; %s %s %s;) { --%s; ..." % (nm, I, nm, op, B, nm)
+            return (Blo if op == ">" else Blo.shift(-1)), Ihi.shift(-1), gap, "for(%s;) { --%s; ..." % (txt, nm)
         raise NotImplementedError("loop over %s: step %+d in %s with condition %s" % (nm, st, where, op))
     # (2) search variable:  T p = X;  while(p > B) { ... --p ... }
     var = view.locals.get(d)
